@@ -44,5 +44,25 @@ def orders : List (String × String × String × Nat × Nat) := [
   ("spin_rw_mutex", "word", "fadd", 5, 2),
   ("spin_rw_mutex", "word", "fand", 5, 2),
   ("spin_rw_mutex", "word", "fsub", 5, 2)]
+/-- facts about the source text of rtm_rw_mutex.cpp / rtm_mutex.cpp (statement order of the real paths, what the speculative paths read inside
+the transaction, that a speculative release commits without storing), re-extracted on every run -/
+def rtmSrc : List (String × Bool) := [
+  ("rtm_rw acquire_writer, real path: m.lock() precedes write_flag.store(true)", true),
+  ("rtm_rw acquire_writer, real path: the lock becomes rtm_real_writer (scoped_lock-local state) after m.lock()", true),
+  ("rtm_rw acquire_writer, speculative path: m_state is read inside the transaction and a non-zero value aborts it", true),
+  ("rtm_rw acquire_reader, speculative path: write_flag is read inside the transaction and `true` aborts it", true),
+  ("rtm_rw acquire_reader, real path: lock_shared() and no store to write_flag", true),
+  ("rtm_rw release of a transacting holder: end_transaction() and no store / unlock", true),
+  ("rtm_rw release of a real writer: write_flag.store(false) precedes m.unlock()", true),
+  ("rtm_rw release of a real reader: unlock_shared() and no store to write_flag", true),
+  ("rtm_rw upgrade of a real reader: m.upgrade() precedes write_flag.store(true)", true),
+  ("rtm_rw upgrade of a transacting reader: m_state is read (joins the read set) before it becomes a transacting writer", true),
+  ("rtm_rw downgrade of a real writer: write_flag.store(false) precedes m.downgrade()", true),
+  ("rtm_rw downgrade of a transacting writer: no store", true),
+  ("rtm_rw try_acquire_writer: write_flag.store(true) only after m.try_lock() succeeded", true),
+  ("rtm_rw: write_flag is stored at exactly five places (acquire_writer, try_acquire_writer, upgrade: true; release, downgrade: false)", true),
+  ("rtm_mutex acquire, speculative path: m_flag is read inside the transaction and `true` aborts it", true),
+  ("rtm_mutex release of a transacting holder: end_transaction() and no store / unlock", true),
+  ("rtm_mutex real path: acquire ends in m.lock(), release of a real holder is m.unlock()", true)]
 
 end TbbVerif.Generated.C08
